@@ -52,6 +52,7 @@ def main(argv):
             tier = argv[argv.index("--tier") + 1]
         seed = int(os.environ.get("VERIF_SEED", "0") or 0)
         P = props.PROPS[pid]
+        props.set_tier(tier)
         rows = P[tier]()
         for r in rows:
             if P.get("exc_is_violation"):
